@@ -74,6 +74,14 @@ def build(package, profile="debug", features=None, no_default=False, toolchain=N
     """cargo build of one harness package against /repo's current working tree."""
     if profile == "asan":
         return build_asan(package)
+    if os.environ.get("VERIF_COV"):
+        # development aid (never set by the registered commands): coverage-instrumented harness
+        # builds in a scratch directory, to see which lines of /repo/src the checks execute
+        # (tools/coverage.sh)
+        toolchain = "nightly"
+        extra_rustflags = ((extra_rustflags or "") + " -C instrument-coverage").strip()
+        target_dir = os.path.join(os.environ["VERIF_COV"], "target-" + ("nd-" if no_default else "") + "-".join(features or ["default"]))
+        os.environ["LLVM_PROFILE_FILE"] = os.path.join(os.environ["VERIF_COV"], "prof", "%p-%m.profraw")
     key = (package, profile, tuple(features or ()), no_default, toolchain, extra_rustflags, target_dir)
     if key in _built:
         return _built[key]
